@@ -3,7 +3,7 @@
 //! proposal (`ExternalGroup::propose` accepts any `Proposal`), and sends the types it is allowed to send.  Every member
 //! caches what it receives; the next commit must be built without panic, must silently drop the offender, and must be
 //! accepted by everybody, with the offender reported as unused.
-use crate::util::{Opts, Rng};
+use crate::util::{Opts, Rng, QA};
 use crate::world::*;
 use mls_rs::client_builder::MlsConfig;
 use mls_rs::external_client::{ExternalClient, ExternalReceivedMessage};
@@ -277,6 +277,118 @@ fn gce_scenario(rng: &mut Rng, out: &mut Out) {
     }
 }
 
+/// Key-package lifetime against the time the commit is built / processed at.  An outsider publishes a key package valid in
+/// [nb, na] (hook `verif_generate_key_package_unchecked`).  By value and by reference, for commit times before, inside and
+/// after the window: the committer refuses / drops the Add exactly outside the window; a commit built inside the window is
+/// accepted by a receiver whose clock is inside the window (or that passes no time) and rejected by receivers whose clock is
+/// outside it.
+fn lifetime_scenario(rng: &mut Rng, out: &mut Out, qa: &mut QA) {
+    use mls_rs::identity::basic::BasicIdentityProvider;
+    use mls_rs::time::MlsTime;
+    use mls_rs::{CipherSuite, Client};
+    let client = |name: &str| {
+        let (id, sk) = make_identity(name, 1);
+        Client::builder()
+            .crypto_provider(RustCryptoProvider::default())
+            .identity_provider(BasicIdentityProvider::new())
+            .signing_identity(id, sk, CipherSuite::from(1u16))
+            .build()
+    };
+    let a = client("la");
+    let b = client("lb");
+    let c = client("lc");
+    let o = client("lo");
+    let Ok(mut ga) = a.create_group(Default::default(), Default::default(), None) else { return };
+    let kps = vec![
+        b.generate_key_package_message(Default::default(), Default::default(), None).unwrap(),
+        c.generate_key_package_message(Default::default(), Default::default(), None).unwrap(),
+    ];
+    let mut bld = ga.commit_builder();
+    for kp in kps {
+        bld = bld.add_member(kp).unwrap();
+    }
+    let Ok(co) = bld.build() else { return };
+    ga.apply_pending_commit().unwrap();
+    let join = |cl: &Client<_>| co.welcome_messages.iter().find_map(|w| cl.join_group(None, w, None).ok().map(|x| x.0));
+    let (Some(gb), Some(gc)) = (join(&b), join(&c)) else {
+        out.fails.push("lifetime: setup join".into());
+        return;
+    };
+    // members' own leaves were made now: the window of the outsider is placed around the present
+    let now = MlsTime::now().seconds_since_epoch();
+    let nb = now - rng.range(100, 1000);
+    let na = now + rng.range(100, 1000);
+    let before = nb - rng.range(1, 50);
+    let after = na + rng.range(1, 50);
+    let inside = now;
+    for by_ref in [false, true] {
+        for (tname, t, valid) in [("before", before, false), ("inside", inside, true), ("after", after, false)] {
+            out.cases += 1;
+            let Ok(kp) = o.verif_generate_key_package_unchecked(|_| {}, Some((nb, na))) else {
+                out.fails.push("lifetime: key package".into());
+                return;
+            };
+            let mut g = ga.clone();
+            let mut recv: Vec<(mls_rs::Group<_>, &str, Option<u64>, bool)> =
+                vec![(gb.clone(), "inside", Some(inside), true), (gc.clone(), "after", Some(after), false), (gb.clone(), "before", Some(before), false), (gc.clone(), "no-clock", None, true)];
+            let built = if by_ref {
+                let mut gp = gb.clone();
+                let Ok(p) = gp.propose_add(kp, vec![]) else {
+                    out.fails.push("lifetime: propose_add refused (proposers do not check the lifetime against a clock of their own choice)".into());
+                    continue;
+                };
+                if g.process_incoming_message(p.clone()).is_err() {
+                    out.fails.push("lifetime: committer rejected the Add proposal message".into());
+                    continue;
+                }
+                for r in recv.iter_mut() {
+                    let _ = r.0.process_incoming_message(p.clone());
+                }
+                g.commit_builder().commit_time(MlsTime::from(t)).build()
+            } else {
+                g.commit_builder().add_member(kp).and_then(|b| b.commit_time(MlsTime::from(t)).build())
+            };
+            out.cover.insert(format!("lifetime:{}:{tname}:{}", if by_ref { "ref" } else { "val" }, if built.is_ok() { "built" } else { "refused" }));
+            match (&built, by_ref, valid) {
+                (Ok(_), false, false) => out.fails.push(format!("lifetime: Add by value of a key package outside its lifetime (commit time {tname} the window) was committed")),
+                (Err(e), false, true) => out.fails.push(format!("lifetime: Add by value inside the lifetime was refused: {}", err_class(e))),
+                (Err(e), true, _) => out.fails.push(format!("lifetime: commit with a by-reference Add (commit time {tname} the window) failed instead of dropping it: {}", err_class(e))),
+                _ => {}
+            }
+            // `life` rows of the model (`Lifetime.addOk`): window, clock -> verdict on the Add
+            if !by_ref {
+                qa.put(&format!("life {nb} {na} {t}"), if built.is_ok() { "ok" } else { "err" });
+            }
+            let Ok(co2) = built else { continue };
+            let applied_add = !co2.welcome_messages.is_empty();
+            if by_ref {
+                qa.put(&format!("life {nb} {na} {t}"), if applied_add { "ok" } else { "err" });
+            }
+            if by_ref && applied_add != valid {
+                out.fails.push(format!("lifetime: by-reference Add with commit time {tname} the window: applied={applied_add}, expected {valid}"));
+            }
+            if !applied_add {
+                continue;
+            }
+            // receivers with clocks of their own
+            for (mut r, rname, rt, expect_ok) in recv {
+                let res = match rt {
+                    Some(x) => r.process_incoming_message_with_time(co2.commit_message.clone(), MlsTime::from(x)),
+                    None => r.process_incoming_message(co2.commit_message.clone()),
+                };
+                out.cases += 1;
+                qa.put(&format!("life {nb} {na} {}", rt.map(|x| x.to_string()).unwrap_or("-".into())), if res.is_ok() { "ok" } else { "err" });
+                out.cover.insert(format!("lifetime:recv:{rname}:{}", if res.is_ok() { "ok" } else { "rejected" }));
+                match (res, expect_ok) {
+                    (Ok(_), false) => out.fails.push(format!("lifetime: a receiver whose clock is {rname} the key package's window accepted the commit that adds it")),
+                    (Err(e), true) => out.fails.push(format!("lifetime: a receiver ({rname}) rejected a commit adding a key package inside its lifetime: {}", err_class(&e))),
+                    _ => {}
+                }
+            }
+        }
+    }
+}
+
 pub fn run(o: &Opts) -> i32 {
     crate::util::quiet_panics();
     let dir = o.str("out", "/verif/work/c10");
@@ -284,13 +396,17 @@ pub fn run(o: &Opts) -> i32 {
     let mut rng = Rng::new(o.seed());
     let mut out = Out { fails: vec![], cases: 0, cover: Default::default() };
     let mk = |s: &Setup, hd: &Handles, id, sk| mk_client(s, hd, id, sk);
+    let mut qa = QA::create(&dir, "c10x");
     let n = o.u64("scenarios", if o.thorough() { 200 } else { 20 });
     for _ in 0..n {
         let mut r = rng.fork();
         scenario(&mut r, &mk, &mut out);
         gce_scenario(&mut r, &mut out);
         gce_scenario(&mut r, &mut out);
+        lifetime_scenario(&mut r, &mut out, &mut qa);
     }
+    let rows = qa.finish();
+    println!("rows {rows}");
     println!("cases {}", out.cases);
     println!("cover {}", out.cover.iter().cloned().collect::<Vec<_>>().join(";"));
     println!("oracle_failures {}", out.fails.len());
